@@ -7,6 +7,32 @@ sys.path.insert(0, os.path.dirname(os.path.abspath(__file__)))
 import common   # noqa
 
 
+def _watchdog(tier):
+    """A check must end with a verdict or with exit 2, never hang or exhaust the machine (a changed tree can send a generator, an
+    oracle or a snapshot into a loop): a daemon thread ends the run with exit 2 when the wall clock (VERIF_TIME_LIMIT_S, default
+    2400 s quick / 7200 s thorough) or the resident memory (VERIF_MEM_LIMIT_GB, default 24) is exceeded."""
+    import threading
+    import time
+    t_lim = float(os.environ.get('VERIF_TIME_LIMIT_S', 2400 if tier == 'quick' else 7200))
+    m_lim = float(os.environ.get('VERIF_MEM_LIMIT_GB', 24)) * (1 << 30)
+    t0 = time.time()
+    page = os.sysconf('SC_PAGE_SIZE')
+
+    def loop():
+        while True:
+            time.sleep(2)
+            try:
+                rss = int(open('/proc/self/statm').read().split()[1]) * page
+            except Exception:      # noqa
+                rss = 0
+            if time.time() - t0 > t_lim or rss > m_lim:
+                why = 'time limit' if rss <= m_lim else f'memory limit ({rss >> 30} GB resident)'
+                sys.stdout.write(f'harness error (not a verdict): {why} exceeded\n')
+                sys.stdout.flush()
+                os._exit(2)
+    threading.Thread(target=loop, daemon=True).start()
+
+
 def main():
     if len(sys.argv) >= 2 and sys.argv[1] == 'replay':
         sys.exit(common.replay(sys.argv[2]))
@@ -17,6 +43,7 @@ def main():
     ap.add_argument('--tier', default=os.environ.get('VERIF_TIER', 'quick'), choices=['quick', 'thorough'])
     ap.add_argument('--seed', type=int, default=int(os.environ.get('VERIF_SEED', '0') or 0))
     a = ap.parse_args()
+    _watchdog(a.tier)
     try:
         rc = common.run_check(a.property, a.tier, a.seed)
     except SystemExit:
